@@ -334,6 +334,7 @@ func (vc *VC) stringConst(s string, t types.Type) *SV {
 	}
 	id := vc.eng.globalID("str:" + s)
 	strKeyIDs[id] = true
+	constStrings[id] = s
 	ref := bvLit(refBits, int64(id))
 	if !vc.eng.declared(vc, fmt.Sprintf("strconst:%d", id)) && len(s) <= 64 && vc.entryH8 != "" {
 		for i := 0; i < len(s); i++ {
